@@ -4,6 +4,7 @@ import itertools
 from ..sexp import sx
 
 ID = "C18"
+CASE_REPLAY = True
 MODULES = ["Shuttle.Props.C18"]
 RULE = ("pairs (a,b) of lattice elements: exhaustive over all elements of nesting depth <= 1 over the "
         "names {a,b} (thorough; quick takes all 56x56 pairs of the depth-0 and GetItem elements plus a "
